@@ -723,6 +723,11 @@ where
             );
             let u_run_2 = self.rng.random::<T>();
             #[cfg(feature = "verif")]
+            crate::verif::rec(
+                "nuts.pre_accept",
+                &[n_prime as f64, n as f64, s_prime as i32 as f64, crate::verif::f(tmp)],
+            );
+            #[cfg(feature = "verif")]
             let u_run_2: T = crate::verif::tap_scalar("nuts.accept_u", u_run_2);
             #[cfg(feature = "verif")]
             {
@@ -1177,12 +1182,12 @@ where
 
             let u_build_tree: f64 = (*rng).random::<f64>();
             #[cfg(feature = "verif")]
-            let u_build_tree: f64 = crate::verif::tap_scalar("nuts.merge_u", u_build_tree);
-            #[cfg(feature = "verif")]
             crate::verif::rec(
                 "nuts.merge",
                 &[j as f64, n_prime as f64, n_prime_2 as f64, s_prime_2 as i32 as f64],
             );
+            #[cfg(feature = "verif")]
+            let u_build_tree: f64 = crate::verif::tap_scalar("nuts.merge_u", u_build_tree);
             if u_build_tree < (n_prime_2 as f64 / (n_prime + n_prime_2).max(1) as f64) {
                 position_prime = position_prime_2;
                 grad_prime = grad_prime_2;
